@@ -166,9 +166,8 @@ def prose_less_breaks(kind, ir, inline_types=True):
             if "default" in p or "typ" not in p or (is_ret and kind == "numpydoc"):
                 return True
         elif kind in ("class", "function", "method"):
-            if is_ret and kind != "class":
-                return True
-            if kind != "class" and not inline_types and not is_ret:
+            if kind != "class" and not inline_types:
+                # (for the return entry too: `:rtype:` is only written next to `:returns:`)
                 return True  # the type lives in a `:type` line that is only written next to a `:param` line
             # documented parameters are listed first: a prose-less parameter followed by a described one moves
             if not is_ret and any("doc" in q and not r for _, q, r in ents[i + 1 :]):
